@@ -556,6 +556,7 @@ func registerAll() {
 	ev.Register("projects", judged)
 	ev.Register("recursive", judgedRecursive)
 	ev.Register("own-registrations", judgedOwn)
+	ev.Register("chains", ownOracle)
 }
 
 // the generated cases after a disturbing prelude on other objects (sut.Disturb), every case from emptied pools
@@ -758,4 +759,55 @@ func judgedOwn(c OwnCase) *ev.Verdict {
 func TestPropOwnRegistrations(t *testing.T) {
 	registerAll()
 	ev.Rapid(t, "own-registrations", ev.N(600, 4000), genOwn, judgedOwn)
+}
+
+// ---- chains of distinct types: every type requires the next one; the example has to reach the last
+func TestPropChains(t *testing.T) {
+	registerAll()
+	ev.KeepFirst("chains")
+	var n, bad int64
+	for i, depth := range []int{10, 30, 63, 64, 65, 66, 70, 130, 300} {
+		for shape := 0; shape < 3; shape++ {
+			if !ev.Mine(i*3 + shape) {
+				continue
+			}
+			var types []sut.Named
+			for k := 1; k <= depth; k++ {
+				text := "{\n  \"leaf\": \"end\"\n}"
+				if k < depth {
+					switch shape {
+					case 0:
+						text = fmt.Sprintf("{\n  \"n\": @t%d\n}", k+1)
+					case 1:
+						text = fmt.Sprintf("{\n  \"k\": %d,\n  \"n\": [ // {minItems: 1}\n    @t%d\n  ]\n}", k, k+1)
+					default:
+						text = fmt.Sprintf("{\n  \"n\": @t%d | @never // {optional: false}\n}", k+1)
+					}
+				}
+				types = append(types, sut.Named{Name: fmt.Sprintf("@t%d", k), Text: text})
+			}
+			types = append(types, sut.Named{Name: "@never", Text: "true"})
+			c := OwnCase{P: sut.Project{Root: "{\n  \"n\": @t1\n}", Types: types}}
+			n++
+			ev.NonTrivial("chains", fmt.Sprintf("%d/%d", depth, shape))
+			v := ownOracle(c)
+			if v == nil {
+				// the last type's property is in the example
+				o := sut.Observe(c.P)
+				if o.Check != nil {
+					v = ev.V("chains:refused", "a chain of %d types is refused: %s", depth, o.Check)
+				} else if !strings.Contains(o.Example, `"leaf":"end"`) {
+					v = ev.V("chains:example-stops-early", "the example of a chain of %d types does not reach the last one: %.200s ...", depth, o.Example)
+				}
+			}
+			if v != nil && ev.Report("chains", c, v) {
+				bad++
+			}
+		}
+	}
+	ev.Count("chains", n)
+	ev.Exhaustive("chains", "chains of 10 ... 300 distinct types (plain property, array item with minItems 1, choice whose first alternative continues)")
+	if bad > 0 {
+		t.Errorf("VIOLATION-CANDIDATE chains: %d", bad)
+	}
 }
